@@ -35,6 +35,9 @@ CONSTANTS NFiles,      \* migrating files are 1..NFiles, visited in this order
           Concurrent,  \* TRUE: MigrateBatch overlaps files (semaphore > 1); FALSE: one at a time
           ScanAtomic,  \* TRUE: the scan is one step (generation: a crash inside it cannot be placed)
           StopWhenSettled, \* TRUE: no further cycle after a clean one (generation)
+          Overlap,     \* "never" | "always" | "any": a second MigrateBatch over the *same* candidate list before
+                       \* reconciliation (two overlapping cycles -- cron + manual trigger -- or a retry holding
+                       \* a stale list).  The second pass meets files whose row already says cold.
           Emit
 
 Files == 1..NFiles
@@ -47,13 +50,15 @@ VARIABLES hotRes, coldRes,
           pc,         \* [Files -> {"idle","copying","copied","metaDone","finished","failed"}]
           phase,      \* "down" | "scan" | "migrate" | "reconcile" | "end"
           stodo, cands, rtodo,
+          pass,       \* 1 | 2: which pass over the candidate list
+          nW, nD,     \* [Files -> Nat]: WriteReader(cold, f) / Delete(hot, f) calls so far in this cycle
           clean,      \* no crash and no error reported (errors = 0) since the cycle began
           settled,    \* the last cycle ran to its end and reported errors = 0
           faults,
           cyc, hist   \* history (generation only; hidden by VIEW in the MC configs)
 
-state == <<hotRes, coldRes, hot, coldFinal, coldPart, meta, pc, phase, stodo, cands, rtodo, clean, settled, faults>>
-vars  == <<hotRes, coldRes, hot, coldFinal, coldPart, meta, pc, phase, stodo, cands, rtodo, clean, settled, faults, cyc, hist>>
+state == <<hotRes, coldRes, hot, coldFinal, coldPart, meta, pc, phase, stodo, cands, rtodo, pass, nW, nD, clean, settled, faults>>
+vars  == <<hotRes, coldRes, hot, coldFinal, coldPart, meta, pc, phase, stodo, cands, rtodo, pass, nW, nD, clean, settled, faults, cyc, hist>>
 MCView == state
 
 Init == /\ hotRes \in BOOLEAN /\ coldRes \in BOOLEAN
@@ -62,11 +67,12 @@ Init == /\ hotRes \in BOOLEAN /\ coldRes \in BOOLEAN
         /\ meta = [f \in Files |-> "hot"]
         /\ pc = [f \in Files |-> "idle"]
         /\ phase = "down" /\ stodo = {} /\ cands = {} /\ rtodo = {}
+        /\ pass = 1 /\ nW = [f \in Files |-> 0] /\ nD = [f \in Files |-> 0]
         /\ clean = FALSE /\ settled = FALSE /\ faults = 0
         /\ cyc = <<>> /\ hist = <<>>
 
 Snap(ended, h, cf, cp, m) == [faults |-> cyc, ended |-> ended, hot |-> h, coldFinal |-> cf, coldPart |-> cp, meta |-> m]
-Fault(f, at, kind) == [file |-> f, at |-> at, kind |-> kind]
+Fault(f, at, kind, n) == [file |-> f, at |-> at, kind |-> kind, nth |-> n]
 NoHist == UNCHANGED <<cyc, hist>>
 CanFault(n) == faults + n <= MaxFaults
 
@@ -76,26 +82,26 @@ StartCycle ==
     /\ ~(StopWhenSettled /\ settled)
     /\ phase' = "scan" /\ stodo' = Files /\ clean' = TRUE /\ settled' = FALSE
     /\ pc' = [f \in Files |-> "idle"] /\ cands' = {} /\ rtodo' = {}
-    /\ UNCHANGED <<hotRes, coldRes, hot, coldFinal, coldPart, meta, faults>> /\ NoHist
+    /\ UNCHANGED <<hotRes, coldRes, hot, coldFinal, coldPart, meta, faults, pass, nW, nD>> /\ NoHist
 
 \* RecordFile upsert for a file listed in the hot backend: tier := hot
 ScanFile(f) ==
     /\ phase = "scan" /\ ~ScanAtomic /\ f \in stodo
     /\ meta' = IF hot[f] THEN [meta EXCEPT ![f] = "hot"] ELSE meta
     /\ stodo' = stodo \ {f}
-    /\ UNCHANGED <<hotRes, coldRes, hot, coldFinal, coldPart, pc, phase, cands, rtodo, clean, settled, faults>> /\ NoHist
+    /\ UNCHANGED <<hotRes, coldRes, hot, coldFinal, coldPart, pc, phase, cands, rtodo, clean, settled, faults, pass, nW, nD>> /\ NoHist
 
 ScanAll ==
     /\ phase = "scan" /\ ScanAtomic /\ stodo # {}
     /\ meta' = [f \in Files |-> IF hot[f] THEN "hot" ELSE meta[f]]
     /\ stodo' = {}
-    /\ UNCHANGED <<hotRes, coldRes, hot, coldFinal, coldPart, pc, phase, cands, rtodo, clean, settled, faults>> /\ NoHist
+    /\ UNCHANGED <<hotRes, coldRes, hot, coldFinal, coldPart, pc, phase, cands, rtodo, clean, settled, faults, pass, nW, nD>> /\ NoHist
 
 \* FindCandidates: rows with tier = hot
 ScanEnd ==
     /\ phase = "scan" /\ stodo = {}
     /\ phase' = "migrate" /\ cands' = {f \in Files : meta[f] = "hot"}
-    /\ UNCHANGED <<hotRes, coldRes, hot, coldFinal, coldPart, meta, pc, stodo, rtodo, clean, settled, faults>> /\ NoHist
+    /\ UNCHANGED <<hotRes, coldRes, hot, coldFinal, coldPart, meta, pc, stodo, rtodo, clean, settled, faults, pass, nW, nD>> /\ NoHist
 
 Busy(f)   == pc[f] \in {"copying", "copied", "metaDone"}
 MayRun(f) == /\ phase = "migrate" /\ f \in cands
@@ -106,14 +112,14 @@ MayRun(f) == /\ phase = "migrate" /\ f \in cands
 CopyBegin(f) ==
     /\ MayRun(f) /\ pc[f] = "idle"
     /\ pc' = [pc EXCEPT ![f] = "copying"] /\ coldPart' = [coldPart EXCEPT ![f] = TRUE]
-    /\ UNCHANGED <<hotRes, coldRes, hot, coldFinal, meta, phase, stodo, cands, rtodo, clean, settled, faults>> /\ NoHist
+    /\ UNCHANGED <<hotRes, coldRes, hot, coldFinal, meta, phase, stodo, cands, rtodo, clean, settled, faults, pass, nW, nD>> /\ NoHist
 
 \* ... and renames it over the final path once the stream is complete
 CopyEnd(f) ==
     /\ MayRun(f) /\ pc[f] = "copying" /\ hot[f]
     /\ pc' = [pc EXCEPT ![f] = "copied"]
     /\ coldPart' = [coldPart EXCEPT ![f] = FALSE] /\ coldFinal' = [coldFinal EXCEPT ![f] = TRUE]
-    /\ UNCHANGED <<hotRes, coldRes, hot, meta, phase, stodo, cands, rtodo, clean, settled, faults>> /\ NoHist
+    /\ UNCHANGED <<hotRes, coldRes, hot, meta, phase, stodo, cands, rtodo, clean, settled, faults, pass, nW, nD>> /\ NoHist
 
 \* the source read or the destination write fails: MigrateFile returns the error.
 \* part = TRUE: the failure came after WriteReader had created the staging file.
@@ -125,18 +131,18 @@ CopyFail(f, part) ==
     /\ coldPart' = IF part THEN [coldPart EXCEPT ![f] = TRUE] ELSE coldPart   \* an older staging file stays
     /\ faults' = faults + 1 /\ clean' = FALSE
     /\ cyc' = Append(cyc, Fault(f, IF part THEN "copy_mid" ELSE "copy_begin", "fail")) /\ UNCHANGED hist
-    /\ UNCHANGED <<hotRes, coldRes, hot, coldFinal, meta, phase, stodo, cands, rtodo, settled>>
+    /\ UNCHANGED <<hotRes, coldRes, hot, coldFinal, meta, phase, stodo, cands, rtodo, settled, pass, nW, nD>>
 
 \* a source that has vanished (cannot happen as written: kept for mutated trees) fails the copy
 CopyNoSource(f) ==
     /\ MayRun(f) /\ pc[f] = "copying" /\ ~hot[f]
     /\ pc' = [pc EXCEPT ![f] = "failed"] /\ clean' = FALSE
-    /\ UNCHANGED <<hotRes, coldRes, hot, coldFinal, coldPart, meta, phase, stodo, cands, rtodo, settled, faults>> /\ NoHist
+    /\ UNCHANGED <<hotRes, coldRes, hot, coldFinal, coldPart, meta, phase, stodo, cands, rtodo, settled, faults, pass, nW, nD>> /\ NoHist
 
 MetaUpdate(f) ==
     /\ MayRun(f) /\ pc[f] = "copied"
     /\ pc' = [pc EXCEPT ![f] = "metaDone"] /\ meta' = [meta EXCEPT ![f] = "cold"]
-    /\ UNCHANGED <<hotRes, coldRes, hot, coldFinal, coldPart, phase, stodo, cands, rtodo, clean, settled, faults>> /\ NoHist
+    /\ UNCHANGED <<hotRes, coldRes, hot, coldFinal, coldPart, phase, stodo, cands, rtodo, clean, settled, faults, pass, nW, nD>> /\ NoHist
 
 \* UpdateTier fails: roll back by deleting the destination copy (which may fail as well)
 MetaFail(f, rollbackOK) ==
@@ -148,12 +154,12 @@ MetaFail(f, rollbackOK) ==
     /\ cyc' = (IF rollbackOK THEN Append(cyc, Fault(f, "meta", "fail"))
                ELSE Append(Append(cyc, Fault(f, "meta", "fail")), Fault(f, "rollback", "fail")))
     /\ UNCHANGED hist
-    /\ UNCHANGED <<hotRes, coldRes, hot, coldPart, meta, phase, stodo, cands, rtodo, settled>>
+    /\ UNCHANGED <<hotRes, coldRes, hot, coldPart, meta, phase, stodo, cands, rtodo, settled, pass, nW, nD>>
 
 SrcDelete(f) ==
     /\ MayRun(f) /\ pc[f] = "metaDone"
     /\ pc' = [pc EXCEPT ![f] = "finished"] /\ hot' = [hot EXCEPT ![f] = FALSE]
-    /\ UNCHANGED <<hotRes, coldRes, coldFinal, coldPart, meta, phase, stodo, cands, rtodo, clean, settled, faults>> /\ NoHist
+    /\ UNCHANGED <<hotRes, coldRes, coldFinal, coldPart, meta, phase, stodo, cands, rtodo, clean, settled, faults, pass, nW, nD>> /\ NoHist
 
 \* "Don't fail the migration - file is in destination, just source cleanup failed"
 SrcDeleteFail(f) ==
@@ -161,19 +167,19 @@ SrcDeleteFail(f) ==
     /\ pc' = [pc EXCEPT ![f] = "finished"]
     /\ faults' = faults + 1          \* MigrateFile still returns nil: the cycle reports no error for it
     /\ cyc' = Append(cyc, Fault(f, "src_delete", "fail")) /\ UNCHANGED hist
-    /\ UNCHANGED <<hotRes, coldRes, hot, coldFinal, coldPart, meta, phase, stodo, cands, rtodo, clean, settled>>
+    /\ UNCHANGED <<hotRes, coldRes, hot, coldFinal, coldPart, meta, phase, stodo, cands, rtodo, clean, settled, pass, nW, nD>>
 
 MigrateEnd ==
     /\ phase = "migrate" /\ \A f \in cands : pc[f] \in {"finished", "failed"}
     /\ phase' = "reconcile" /\ rtodo' = {f \in Files : meta[f] = "cold"}
-    /\ UNCHANGED <<hotRes, coldRes, hot, coldFinal, coldPart, meta, pc, stodo, cands, clean, settled, faults>> /\ NoHist
+    /\ UNCHANGED <<hotRes, coldRes, hot, coldFinal, coldPart, meta, pc, stodo, cands, clean, settled, faults, pass, nW, nD>> /\ NoHist
 
 \* ReconcileOrphanedFiles, one row: Exists(hot) -> Delete(hot)
 Reconcile(f) ==
     /\ phase = "reconcile" /\ f \in rtodo
     /\ rtodo' = rtodo \ {f}
     /\ hot' = [hot EXCEPT ![f] = FALSE]
-    /\ UNCHANGED <<hotRes, coldRes, coldFinal, coldPart, meta, pc, phase, stodo, cands, clean, settled, faults>> /\ NoHist
+    /\ UNCHANGED <<hotRes, coldRes, coldFinal, coldPart, meta, pc, phase, stodo, cands, clean, settled, faults, pass, nW, nD>> /\ NoHist
 
 \* Exists or Delete fails for an orphan: counted, skipped
 ReconcileFail(f, at) ==
@@ -181,13 +187,13 @@ ReconcileFail(f, at) ==
     /\ rtodo' = rtodo \ {f}
     /\ faults' = faults + 1 /\ clean' = FALSE
     /\ cyc' = Append(cyc, Fault(f, at, "fail")) /\ UNCHANGED hist
-    /\ UNCHANGED <<hotRes, coldRes, hot, coldFinal, coldPart, meta, pc, phase, stodo, cands, settled>>
+    /\ UNCHANGED <<hotRes, coldRes, hot, coldFinal, coldPart, meta, pc, phase, stodo, cands, settled, pass, nW, nD>>
 
 EndCycle ==
     /\ phase = "reconcile" /\ rtodo = {}
     /\ phase' = "end" /\ settled' = clean
     /\ hist' = Append(hist, Snap("end", hot, coldFinal, coldPart, meta)) /\ cyc' = <<>>
-    /\ UNCHANGED <<hotRes, coldRes, hot, coldFinal, coldPart, meta, pc, stodo, cands, rtodo, clean, faults>>
+    /\ UNCHANGED <<hotRes, coldRes, hot, coldFinal, coldPart, meta, pc, stodo, cands, rtodo, clean, faults, pass, nW, nD>>
 
 \* where the process dies, named by the next step of the file being worked on
 CrashPoint ==
@@ -214,7 +220,7 @@ Crash ==
          /\ hist' = Append(hist, [Snap("crash", hot, coldFinal, coldPart, meta) EXCEPT !.faults = Append(cyc, c)])
     /\ phase' = "down" /\ faults' = faults + 1 /\ clean' = FALSE /\ settled' = FALSE
     /\ pc' = [f \in Files |-> "idle"] /\ stodo' = {} /\ cands' = {} /\ rtodo' = {}
-    /\ UNCHANGED <<hotRes, coldRes, hot, coldFinal, coldPart, meta>>
+    /\ UNCHANGED <<hotRes, coldRes, hot, coldFinal, coldPart, meta, pass, nW, nD>>
 
 Next == \/ StartCycle \/ ScanAll \/ ScanEnd \/ MigrateEnd \/ EndCycle \/ Crash
         \/ \E f \in Files : \/ ScanFile(f) \/ CopyBegin(f) \/ CopyEnd(f) \/ CopyNoSource(f)
